@@ -7,7 +7,7 @@
    Not proved here: fairness of the Go scheduler (a live worker goroutine does eventually take its
    next step - C15_worker_progress shows the step is always enabled), that a task's own body
    terminates, and the atomicity of getJob. *)
-From Gws Require Import Lib.Base Model.Queue Spec.FifoServer Proofs.QueueProofs.
+From Gws Require Import Lib.Base Model.Queue Spec.FifoServer Proofs.QueueProofs Gen.Funcs Proofs.GenFuncsProofs.
 Local Open Scope Z_scope.
 
 (* every submitted task is either started or still queued, never both, never twice, in order *)
@@ -93,6 +93,16 @@ Proof.
     rewrite (no_submit_submitted _ _ _ Hns Hr). reflexivity.
 Qed.
 
+(* Tie to the source: the counter arithmetic and the order of the three tests of getJob - queue the new job if there is
+   one, add delta, give up when the count has reached the maximum, pop, give up on an empty queue, count the job - in
+   the definition REGENERATED from task.go on this run (the queue operations themselves are inputs: what PopFront
+   returns) agree with the model's get_job on the returned job and on the new count *)
+Theorem C15_get_job_from_source : forall st new delta,
+  let q1 := match new with Some t => wq_q st ++ [t] | None => wq_q st end in
+  gf_gws_workerQueue_getJob (wq_cur st) (wq_max st) (job_code (hd_error q1)) (job_code new) delta
+  = (job_code (snd (get_job st new delta)), wq_cur (fst (get_job st new delta))).
+Proof. exact gen_getJob_is. Qed.
+
 (* non-vacuity: two submitters' tasks 0,1,2 arrive while task 0 runs; the worker drains them in order,
    finds the queue empty and exits; task 3 arrives afterwards and is started by its own Submit *)
 Example C15_nonvacuous :
@@ -111,3 +121,4 @@ Print Assumptions C15_not_stranded.
 Print Assumptions C15_submit_when_idle.
 Print Assumptions C15_worker_progress.
 Print Assumptions C15_drains.
+Print Assumptions C15_get_job_from_source.
